@@ -206,6 +206,67 @@ func evalSeq(q sequence, o *seqOutput) evalResult {
 						step: j})
 				}
 			}
+		case 'M':
+			t := insts[s.Inst]
+			if !t.created || (mk.status != "accepted" && mk.status != "rejected") {
+				continue
+			}
+			c := classes[t.class]
+			m := c.multis()[s.Member]
+			pat := m.patterns()[s.Val]
+			kinds, exp := m.argKinds(pat, t.args)
+			obs := mk.status == "accepted"
+			res.writes++
+			for k, other := range insts {
+				if k != int(s.Inst) && other.created && other.class == t.class && other.args != t.args {
+					res.nontrivial = true
+				}
+			}
+			// the cell: the method, which position carries the foreign value (or "none"), the
+			// declared types' bindings
+			badPos := "none"
+			for i, x := range pat {
+				switch x {
+				case argBad:
+					badPos = fmt.Sprintf("%d:%s", i, valNames[kinds[i]])
+				case argNull:
+					badPos = fmt.Sprintf("null@%d", i)
+				case argOmit:
+					badPos = fmt.Sprintf("omit@%d", i)
+				}
+			}
+			own := typeNames[t.args[0]]
+			if len(c.params) == 2 {
+				own += "," + typeNames[t.args[1]]
+			}
+			cell := "class=" + c.name + "/method=" + m.name + "/own=" + own + "/foreign=" + badPos
+			if obs != exp {
+				res.dis = append(res.dis, disagreement{
+					key: "accept-mismatch/multi/" + cell + "/observed=" + word(obs),
+					what: func() string {
+						return fmt.Sprintf("step %d of [%s]: the call of %s%s on an instance of %s<%s> was %s, expected %s (a position declared with a type parameter accepts exactly the instance's own argument, a concrete position its own type; foreign value at position %s) (message: %s)",
+							j, q, m.name, m.decl(c), c.name, own, word(obs), word(exp), badPos, mk.msg)
+					},
+					step: j})
+			}
+			if p, pos := m.firstStore(); pos >= 0 && kinds[pos] >= 0 {
+				if d := valueDesc(int(kinds[pos]), 1000+10*j+pos); d != "" {
+					if obs && mk.cur != d {
+						res.dis = append(res.dis, disagreement{
+							key:  "store-mismatch/accepted-not-stored/multi/" + cell,
+							what: func() string { return fmt.Sprintf("step %d of [%s]: the call did not throw, but property %s then reads %s instead of %s", j, q, c.props[p], mk.cur, d) },
+							step: j})
+					}
+					if !obs && mk.cur == d {
+						res.dis = append(res.dis, disagreement{
+							key:  "store-mismatch/rejected-but-stored/multi/" + cell,
+							what: func() string { return fmt.Sprintf("step %d of [%s]: the call threw (%s), but property %s then holds the passed value %s", j, q, mk.msg, c.props[p], d) },
+							step: j})
+					}
+				}
+			}
+			p0, _ := m.firstStore()
+			bind(t.class, p0, t.args[p0])
 		case 'P':
 			t, a := insts[s.Inst], insts[s.Actor]
 			if !t.created || !a.created || (mk.status != "accepted" && mk.status != "rejected") {
